@@ -81,6 +81,24 @@ def angSepFloor (ra1 dec1 ra2 dec2 : F) (psiFloor : Option F) : F :=
   | none => psi
   | some f => if psi < f then f else psi
 
+/-- the `psi` trial-data field of `get_tdm_field_func_psi` (skyllh/core/utils/tdm.py): one value per
+(source index, event index) pair of `tdm.src_evt_idxs`, `angular_separation(evt, src, psi_floor)`.
+`none` stands for the `IndexError` of `np.take`. -/
+def psiField (srcs evts : List (F × F)) (pairs : List (Nat × Nat)) (psiFloor : Option F) :
+    List (Option F) :=
+  pairs.map fun p =>
+    match srcs[p.1]?, evts[p.2]? with
+    | some s, some e => some (angSepFloor e.1 e.2 s.1 s.2 psiFloor)
+    | _, _ => none
+
+/-- the Gaussian point-spread density of `GaussianPSFPointLikeSourceSignalSpatialPDF.calculate_pd`
+(skyllh/core/signalpdf.py) for one (source, event) pair:
+`0.5/(π σ²) · exp(-0.5·(ψ²/σ²))` with `ψ = angular_separation(src, evt)`. -/
+def gaussPsfPd (sigma evtRa evtDec srcRa srcDec : F) : F :=
+  let sigmaSq := sigma * sigma
+  let psi := angSep srcRa srcDec evtRa evtDec
+  (1 / 2) / (Transc.pi * sigmaSq) * Transc.exp (-(1 / 2) * (psi * psi / sigmaSq))
+
 /-- unit vector of the direction `(ra, dec)` -/
 def unitVec (ra dec : F) : V3 F :=
   ⟨Transc.cos ra * Transc.cos dec, Transc.sin ra * Transc.cos dec, Transc.sin dec⟩
